@@ -254,6 +254,45 @@ def check_frame(ex, contract, st, tag='frame/'):
 
 # ----------------------------------------------------------------------------- solving
 def discharge(obls, timeout_ms=10000):
+    """decide every obligation.  Functions with many obligations (the scalar writers, the document-level emitter states) are split
+    over a few forked children -- same queries, same budgets, only the wall time differs; a child reports `proved` / `undecided`
+    verdicts, anything else (refutations, a child that died) is decided again in this process so that models and replay data exist."""
+    todo = [i for i, ob in enumerate(obls) if ob.verdict is None]
+    k = int(os.environ.get('PYVC_INNER_PAR', '4') or 1)
+    if k > 1 and len(todo) >= int(os.environ.get('PYVC_INNER_PAR_MIN', '250')):
+        import pickle
+        kids = []
+        for j in range(k):
+            r, w = os.pipe()
+            pid = os.fork()
+            if pid == 0:
+                os.close(r)
+                out = []
+                try:
+                    for i in todo[j::k]:
+                        ob = obls[i]
+                        solve_one(ob, timeout_ms)
+                        if ob.verdict in ('proved', 'undecided'):
+                            out.append((i, ob.verdict, ob.backend, ob.seconds, ob.note))
+                    with os.fdopen(w, 'wb') as f:
+                        pickle.dump(out, f)
+                finally:
+                    os._exit(0)
+            os.close(w)
+            kids.append((pid, r))
+        for pid, r in kids:
+            try:
+                with os.fdopen(r, 'rb') as f:
+                    data = f.read()
+                for i, verdict, backend, seconds, note in (pickle.loads(data) if data else []):
+                    ob = obls[i]
+                    ob.verdict, ob.backend, ob.seconds, ob.note = verdict, backend, seconds, note
+            except Exception:
+                pass
+            try:
+                os.waitpid(pid, 0)
+            except OSError:
+                pass
     for ob in obls:
         solve_one(ob, timeout_ms)
 
